@@ -161,6 +161,7 @@ func (p *peer) handleStateTransition(i int, t stateTransition) {
 				(localID == remoteID) && (p.config.LocalAS > p.config.RemoteAS)
 			if dominant && i == out {
 				// attempt to disable other FSM
+				verifPoint("peer.collision")
 				select {
 				case <-p.closeCh:
 					return
@@ -253,6 +254,7 @@ func (p *peer) run() {
 	}()
 
 	for {
+		verifPoint("peer.loop")
 		select {
 		case <-p.closeCh:
 			return
